@@ -130,12 +130,17 @@ pub(crate) enum ListType {
 pub(crate) enum ListBound {
     Numeric(usize),
     Infinite,
+    /// a list with no elements: there is no valid index at all
+    Empty,
 }
 
 impl ListBound {
     pub(crate) fn val_fits_between(end: &Self, value: &Value) -> Result<bool> {
         match end {
             Self::Infinite => Ok(true),
+            Self::Empty => {
+                bail!("operation will be out of bounds; cannot index into a list that is known to be empty")
+            }
             Self::Numeric(last_valid_index) => {
                 let ConstexprEvaluation::Owned(value) = value.try_constexpr_eval()? else {
                     bail!("Cannot guarantee that this operation will not fail, as it is a non-constexpr index.\nTo allow fallable lookups, explicitly give a spread type to the list:\n```\n\tvar: [int...] = [1, 2, 3]\n```")
@@ -162,6 +167,7 @@ impl Display for ListBound {
         match self {
             Self::Numeric(index) => write!(f, "{index}"),
             Self::Infinite => write!(f, "∞"),
+            Self::Empty => write!(f, "<no valid index>"),
         }
     }
 }
@@ -174,6 +180,7 @@ impl ListType {
     pub fn upper_bound(&self) -> ListBound {
         match self {
             Self::Open { .. } => ListBound::Infinite,
+            Self::Mixed(types) if types.is_empty() => ListBound::Empty,
             Self::Mixed(types) => ListBound::Numeric(types.len() - 1),
         }
     }
